@@ -91,20 +91,22 @@ def main(tier, replay):
     vlib.standard_coverage(chk, stats,
         "real QuadraticPrior/RelativeDifferencePrior/LogcoshPrior/PLSPrior<float> through the GeneralisedPrior API on generated images "
         "(1x1x1..6x7x8, thorough also 8x9x10; singleton dimensions, shifted index ranges, anisotropic voxel sizes), default weights (read back with "
-        "get_weights() and also recomputed by the model), user weights 3^3/5^3/1x3x3/odd boxes, kappa on/off, penalisation factor incl. 0, "
+        "get_weights() and also recomputed by the model), user weights 3^3/5^3/1x3x3/odd boxes (symmetric; symmetric with non-zero centre weight; asymmetric = known-finding class), kappa on/off, penalisation factor incl. 0, "
         "gamma/epsilon/scalar/alpha/eta; ops value, grad, htimes (accumulating into a non-zero output), hrow (every voxel for <= 40 voxels, "
         "else corners + sample), approx, surr, defw.  One line per operation; each element compared with the Lean model "
         "(Quadratic: exact Rat; RDP/log-cosh/PLS/default weights: binary64) under the derived bound |impl-model| <= 4 n 2^-24 M, "
         "n = #weights+16, M = sum of |terms| returned by the model (with the conditioning factor of log cosh / sech^2 / the PLS sqrt). "
         "Oracle (implementation only): <u,Hv>=<v,Hu>; Hessian row = H unit; linear scaling in the penalisation factor (x2, x3, 0); uniform image => zero "
         "gradient; <u,Hu> >= -tol and midpoint convexity of the value if is_convex(); Quadratic: exact expansion value(l+e)=value(l)+<g,e>+<e,He>/2 "
-        "(random e and per voxel) and grad(l+e)=grad(l)+He; RDP/log-cosh/PLS: central differences of value vs gradient and of gradient vs Hessian row with "
+        "(random e and per voxel) and grad(l+e)=grad(l)+He; RDP/log-cosh/PLS: central differences of value vs gradient (PLS: every voxel incl. borders, uniform and varying kappa) and of gradient vs Hessian row with "
         "tolerances derived from bounds on the 3rd/4th derivatives of the potentials; accumulate adds; locality (perturbing a voxel outside the reach "
         "leaves the gradient bitwise unchanged) and point-reflection equivariance (borders treated alike at both ends).",
         extra=dict(worst_relative_to_bound=float(cmp.worst)))
     chk.assumptions += ["regular (box-shaped) images and weights", "float rounding is bounded, not modelled",
                         "32-bit index overflow not modelled", "images positive (RDP: x+y+epsilon > 0)",
-                        "PLS: derivative clause only claimed for strictly interior voxels and spatially uniform kappa (other inputs: known-candidate keys)"]
+                        "weights, kappa and penalisation factor non-negative (positive semi-definiteness)",
+                        "asymmetric user weights w(-d) != w(d): known finding neighbourhood-priors:asymmetric-user-weights (theorems needing symmetric weights are named _partial)",
+                        "PLS: Lean theorem for the partial derivative with respect to every single voxel (alpha != 0, anatomical data as prepared by set_up); directional derivatives along arbitrary images and convexity of PLS: oracle only"]
     if audit:
         vlib.proof_coverage(chk, audit, "cd lean && lake build StirVerif stirdriver && lake env lean ../build/out/Audit_C09.lean")
     return chk.finish()
